@@ -328,8 +328,24 @@ func (w *World) ruleG2Provenance(rule string, a *blsAnchors) {
 				}
 				if cn, ok := cgoName(callee); ok {
 					pr, known := g2Producers[cn]
+					if !known {
+						// the same producer with its result normalised (`…_to_affine`) or not
+						if base := strings.TrimSuffix(cn, "_to_affine"); base != cn {
+							pr, known = g2Producers[base]
+						} else {
+							pr, known = g2Producers[cn+"_to_affine"]
+						}
+					}
+					ccn := cn
+					if _, has := contract(ccn); !has {
+						if base := strings.TrimSuffix(cn, "_to_affine"); base != cn {
+							ccn = base
+						} else {
+							ccn = cn + "_to_affine"
+						}
+					}
 					for i, arg := range cc.Args {
-						if !isE2Arg(arg) || !cgoWrites(cn, i) {
+						if !isE2Arg(arg) || !cgoWrites(ccn, i) {
 							continue
 						}
 						out := g.locOf(arg)
